@@ -115,6 +115,29 @@ def to_float(s):
     return None
 
 
+LOSSLESS_DTYPES = {None, "float", "float64", "numpy.float64", "numpy.double", "numpy.float_", "object", "O", "numpy.object_",
+                   "numpy.longdouble", "numpy.float128", "str", "numpy.str_"}
+
+
+def dtype_name(d):
+    if d is None or isinstance(d, str):
+        return d
+    if isinstance(d, Ext):
+        return d.name
+    n = getattr(d, "name", None)  # interpreter builtin (float / int / str / object)
+    return n if isinstance(n, str) else repr(d)
+
+
+def cast(values, dtype, node=None):
+    """Values after a cast to ``dtype``: identity for float64 / object, otherwise every number token becomes a
+    *different* number (``#o1~float32``): a narrower float or an integer type cannot represent the digits the file holds."""
+    dn = dtype_name(dtype)
+    if dn in LOSSLESS_DTYPES:
+        return list(values)
+    short = dn.split(".")[-1]
+    return [Num(v.name + MUT + short) if isinstance(v, Num) else v for v in values]
+
+
 def _raise(name, msg, node=None):
     raise PyRaise(ExcInstance(name, [msg], BUILTIN_EXC.get(name, ("Exception",))), node)
 
@@ -210,15 +233,16 @@ class FileR:
 class PanelSym:
     """The nested DataFrame handed to the writer: ``cases[i]`` = list of observation tokens of dimension 0."""
 
-    def __init__(self, cases):
+    def __init__(self, cases, index=None):
         self.cases = cases
+        self.index = list(index) if index is not None else list(range(len(cases)))
 
     def m_isinstance(self, interp, c):
         return isinstance(c, Ext) and c.name == "pandas.DataFrame"
 
     def m_getattr(self, interp, attr):
         if attr == "index":
-            return list(range(len(self.cases)))
+            return list(self.index)
         if attr == "iterrows":
             return BoundExt(self, attr)
         if attr == "shape":
@@ -227,7 +251,7 @@ class PanelSym:
 
     def m_method(self, interp, name, args, kwargs, node):
         if name == "iterrows":
-            return [(i, RowSym(c)) for i, c in enumerate(self.cases)]
+            return [(lab, RowSym(c)) for lab, c in zip(self.index, self.cases)]  # (row label, row) as pandas does
         raise Undecided("DataFrame.%s" % name)
 
     def m_len(self, interp):
@@ -295,12 +319,24 @@ class SeriesV:
         return hash(("S", len(self.data)))
 
     def __repr__(self):
-        return "Series(%r)" % (self.data,)
+        idx = "" if self.labels() == list(range(len(self.data))) else ", index=%r" % (self.labels(),)
+        return "Series(%r%s)" % (self.data, idx)
 
     def m_getattr(self, interp, attr):
         if attr == "values":
             return ArrV(self.data)
+        if attr in ("astype", "to_numpy", "copy"):
+            return BoundExt(self, attr)
+        if attr == "index":
+            return IndexV(self.labels())
         raise Undecided("Series.%s" % attr)
+
+    def m_method(self, interp, name, args, kwargs, node):
+        if name == "astype":
+            return SeriesV(cast(self.data, args[0] if args else kwargs.get("dtype")), self.index)
+        if name == "to_numpy":
+            return ArrV(self.data)
+        return SeriesV(self.data, self.index)
 
     def m_len(self, interp):
         return len(self.data)
@@ -309,9 +345,139 @@ class SeriesV:
         return list(self.data)
 
 
+class MaskV:
+    """Boolean vector (result of comparing an index / array with a scalar)."""
+
+    def __init__(self, bits):
+        self.bits = [bool(b) for b in bits]
+
+    def m_invert(self, interp):
+        return MaskV([not b for b in self.bits])
+
+    def m_len(self, interp):
+        return len(self.bits)
+
+    def m_iter(self, interp):
+        return list(self.bits)
+
+    def m_getattr(self, interp, attr):
+        if attr in ("all", "any", "sum"):
+            return BoundExt(self, attr)
+        raise Undecided("mask.%s" % attr)
+
+    def m_method(self, interp, name, args, kwargs, node):
+        return {"all": all, "any": any, "sum": sum}[name](self.bits)
+
+
+class IndexV:
+    """Row / column labels."""
+
+    def __init__(self, labels):
+        self.labels = list(labels)
+
+    def __eq__(self, o):
+        return isinstance(o, IndexV) and self.labels == o.labels
+
+    def __hash__(self):
+        return hash(("I", len(self.labels)))
+
+    def __repr__(self):
+        return "Index(%r)" % (self.labels,)
+
+    def m_len(self, interp):
+        return len(self.labels)
+
+    def m_iter(self, interp):
+        return list(self.labels)
+
+    def m_getitem(self, interp, idx, node):
+        if isinstance(idx, (int, slice)):
+            r = self.labels[idx]
+            return IndexV(r) if isinstance(idx, slice) else r
+        if isinstance(idx, MaskV):
+            return IndexV([l for l, b in zip(self.labels, idx.bits) if b])
+        raise Undecided("index[%r]" % (idx,))
+
+    def m_compare(self, interp, op, a, b, node):
+        import ast as _ast
+        other = b if a is self else a
+        if isinstance(other, IndexV):
+            if isinstance(op, _ast.Eq) and len(other.labels) == len(self.labels):
+                return MaskV([x == y for x, y in zip(self.labels, other.labels)])
+            raise Undecided("comparison of two indexes")
+        if isinstance(op, _ast.Eq):
+            return MaskV([l == other for l in self.labels])
+        if isinstance(op, _ast.NotEq):
+            return MaskV([l != other for l in self.labels])
+        raise Undecided("ordering comparison on an index")
+
+    def m_getattr(self, interp, attr):
+        if attr == "values":
+            return ArrV(self.labels)
+        if attr in ("unique", "isin", "tolist", "to_list", "to_numpy", "equals"):
+            return BoundExt(self, attr)
+        if attr == "is_unique":
+            return len(set(map(repr, self.labels))) == len(self.labels)
+        raise Undecided("Index.%s" % attr)
+
+    def m_method(self, interp, name, args, kwargs, node):
+        if name == "unique":
+            out = []
+            for l in self.labels:
+                if l not in out:
+                    out.append(l)
+            return IndexV(out)
+        if name == "isin":
+            vals = list(interp.iterate(args[0]))
+            return MaskV([l in vals for l in self.labels])
+        if name == "equals":
+            return isinstance(args[0], IndexV) and args[0].labels == self.labels
+        if name == "to_numpy":
+            return ArrV(self.labels)
+        return list(self.labels)
+
+
 class ArrV:
     def __init__(self, data=()):
         self.data = list(data)
+
+    def m_getitem(self, interp, idx, node):
+        if isinstance(idx, MaskV):
+            if len(idx.bits) != len(self.data):
+                _raise("IndexError", "boolean index did not match indexed array", node)
+            return ArrV([x for x, b in zip(self.data, idx.bits) if b])
+        if isinstance(idx, slice):
+            return ArrV(self.data[idx])
+        if isinstance(idx, int):
+            try:
+                return self.data[idx]
+            except IndexError as e:
+                _raise("IndexError", str(e), node)
+        if isinstance(idx, ArrV) or isinstance(idx, list):
+            pos = idx.data if isinstance(idx, ArrV) else idx
+            return ArrV([self.data[i] for i in pos])
+        raise Undecided("array[%r]" % (idx,))
+
+    def m_compare(self, interp, op, a, b, node):
+        import ast as _ast
+        other = b if a is self else a
+        if isinstance(op, (_ast.Eq, _ast.NotEq)) and not hasattr(other, "data"):
+            return MaskV([(x == other) == isinstance(op, _ast.Eq) for x in self.data])
+        raise Undecided("comparison on an array")
+
+    def m_getattr(self, interp, attr):
+        if attr in ("astype", "tolist", "copy"):
+            return BoundExt(self, attr)
+        if attr == "shape":
+            return (len(self.data),)
+        raise Undecided("array.%s" % attr)
+
+    def m_method(self, interp, name, args, kwargs, node):
+        if name == "astype":
+            return ArrV(cast(self.data, args[0] if args else kwargs.get("dtype")))
+        if name == "tolist":
+            return list(self.data)
+        return ArrV(self.data)
 
     def __eq__(self, o):
         return isinstance(o, ArrV) and self.data == o.data
@@ -393,7 +559,7 @@ class FrameV:
         if attr == "shape":
             return (self.nrows(), len(self.cols))
         if attr == "index":
-            return self.labels()
+            return IndexV(self.labels())
         if attr in ("copy", "pop"):
             return BoundExt(self, attr)
         raise Undecided("DataFrame.%s" % attr)
@@ -417,9 +583,14 @@ class FrameV:
 class TableV:
     """Result of ``pd.read_csv(path, sep, header=None)``: rows of parsed cells, integer column labels."""
 
-    def __init__(self, rows):
+    def __init__(self, rows, index_col=None):
         self.rows = [list(r) for r in rows]
         self.labels = list(range(len(rows[0]))) if rows else []
+        self.index = None
+        if index_col is not None:
+            j = self.labels.index(index_col)
+            self.index = [r.pop(j) for r in self.rows]
+            self.labels.pop(j)  # the remaining columns keep their original labels
 
     def m_getattr(self, interp, attr):
         if attr in ("pop",):
@@ -428,6 +599,8 @@ class TableV:
             return ColsV(self.labels)
         if attr == "iloc":
             return ILoc(self)
+        if attr == "index":
+            return IndexV(self.index if self.index is not None else list(range(len(self.rows))))
         if attr == "shape":
             return (len(self.rows), len(self.labels))
         if attr == "values":
@@ -518,20 +691,26 @@ def make_externals(vfs, listing=None):
     def _series(interp, args, kwargs, node):
         data = args[0] if args else kwargs.get("data")
         index = args[1] if len(args) > 1 else kwargs.get("index")
+        dtype = args[2] if len(args) > 2 else kwargs.get("dtype")
+        if isinstance(index, IndexV):
+            index = index.labels
         if data is None:
             return SeriesV([])
         if isinstance(data, (SeriesV, ArrV)):
-            return SeriesV(data.data, index if index is not None else getattr(data, "index", None))
+            return SeriesV(cast(data.data, dtype, node), index if index is not None else getattr(data, "index", None))
         if isinstance(data, (list, tuple)):
-            return SeriesV(data, index)
+            return SeriesV(cast(data, dtype, node), index)
         raise Undecided("pd.Series(%s)" % type(data).__name__)
 
     def _asarray(interp, args, kwargs, node):
         v = args[0]
+        dtype = args[1] if len(args) > 1 else kwargs.get("dtype")
+        if isinstance(v, IndexV):
+            return ArrV(v.labels)
         if isinstance(v, (SeriesV, ArrV)):
-            return ArrV(v.data)
+            return ArrV(cast(v.data, dtype, node))
         if isinstance(v, (list, tuple)):
-            return ArrV(v)
+            return ArrV(cast(v, dtype, node))
         raise Undecided("np.asarray(%s)" % type(v).__name__)
 
     def _concat(interp, args, kwargs, node):
@@ -569,7 +748,12 @@ def make_externals(vfs, listing=None):
         for line in (f.text() if isinstance(f, FileW) else f).splitlines():
             if line.strip():
                 rows.append([to_float(c) if to_float(c) is not None else c.strip() for c in line.split(sep)])
-        return TableV(rows)
+        ic = kwargs.get("index_col")
+        if ic is not None and not isinstance(ic, int):
+            raise Undecided("read_csv(index_col=%r)" % (ic,))
+        if set(kwargs) - {"sep", "header", "index_col", "delimiter"}:
+            raise Undecided("read_csv options %s" % sorted(set(kwargs) - {"sep", "header", "index_col"}))
+        return TableV(rows, ic)
 
     def _zip_longest(interp, args, kwargs, node):
         return list(itertools.zip_longest(*[interp.iterate(a) for a in args], fillvalue=kwargs.get("fillvalue")))
@@ -584,7 +768,25 @@ def make_externals(vfs, listing=None):
             raise Undecided("os.path.join of non-strings")
         return posixpath.join(*args)
 
+    def _reduce(fn):
+        def h(interp, args, kwargs, node):
+            v = args[0]
+            bits = v.bits if isinstance(v, MaskV) else (v.data if isinstance(v, ArrV) else list(interp.iterate(v)))
+            if kwargs or len(args) > 1:
+                raise Undecided("numpy reduction with axis / options")
+            return fn(bits)
+        return h
+
+    def _arange(interp, args, kwargs, node):
+        if kwargs or not all(isinstance(a, int) for a in args):
+            raise Undecided("np.arange with non-integer arguments")
+        return ArrV(list(range(*args)))
+
     ext.update({
+        "numpy.arange": _arange,
+        "numpy.all": _reduce(all), "numpy.any": _reduce(any), "numpy.sum": _reduce(sum),
+        "numpy.count_nonzero": _reduce(lambda b: sum(1 for x in b if x)),
+        "numpy.logical_not": lambda i, a, k, n: a[0].m_invert(i),
         "builtins.open": _open,
         "pandas.DataFrame": _dataframe,
         "pandas.Series": _series,
